@@ -339,6 +339,9 @@ def run_signal(item):
                 ctx.viol.append({'property': PROP, 'key': key + '|gist', 'label': 'gist', 'detail': "sample(sig,'gist') should be the N+order=%d coefficient variables the samples depend on, got %s" % (N + order, [str(c)[:30] for c in cz])})
                 return ctx.result('signal', {'kind': 'signal'})
             coeff = list(cz)         # the value proofs below use the coefficients in the order the gist grid reports them
+            if len(out[4]) != N + order:
+                ctx.viol.append({'property': PROP, 'key': key + '|greville', 'label': 'gist times', 'detail': "sample(sig,'gist') reports %d times for %d coefficients" % (len(out[4]), N + order)})
+                return ctx.result('signal', {'kind': 'signal'})
             for i, g_ in enumerate(rb.greville(xi, order)):
                 ctx.prove('gist time[%d] == t0+T*greville' % i, out[4][i], ctx.rdom.const(t0v) + rT * ctx.rdom.const(g_), key + '|greville')
             if all(abs(v - 0.3125) < 1e-12 for v in gist_start):
